@@ -17,6 +17,7 @@ EXPLANATION = (
     "values (NaN constants etc.) are value-level and not decided."
     " Added after seed round 6: H8 a class whose equality is its printed form and whose hash is a stored field prints that field unchanged."
     " Added after seed round 8: H9 Term.__hash__ reads no lazily filled memo field."
+    " Added after seed round 10: H10 an __eq__ of the term hierarchy that pairs two sequences with zip() also compares their lengths (positive example matched on every run)."
 )
 TECHNIQUE = "static analysis: class-hierarchy rule + key-projection extraction from __eq__/__hash__ bodies"
 LEVEL_TEXT = EXPLANATION
@@ -462,6 +463,49 @@ def rule_h9(repo, col):
                construct="Term.__hash__: reads a lazily filled memo field", function="Term.__hash__")
 
 
+def zip_without_length(fnode):
+    """zip(a, b) calls inside the function whose two sequences are not also compared by length in the same function: zip stops at the shorter one, so a sequence that is a prefix
+    of the other passes an element-wise comparison"""
+    out = []
+    src_lens = set()
+    for c in ast.walk(fnode):
+        if isinstance(c, ast.Compare) and len(c.ops) == 1 and isinstance(c.ops[0], (ast.Eq, ast.NotEq)):
+            sides = [c.left, c.comparators[0]]
+            if all(isinstance(x, ast.Call) and isinstance(x.func, ast.Name) and x.func.id == "len" and len(x.args) == 1 for x in sides):
+                src_lens.add(frozenset(norm(x.args[0]) for x in sides))
+    for c in ast.walk(fnode):
+        if isinstance(c, ast.Call) and isinstance(c.func, ast.Name) and c.func.id == "zip" and len(c.args) == 2 and not any(isinstance(a, ast.Starred) for a in c.args):
+            if frozenset(norm(a) for a in c.args) not in src_lens:
+                out.append(c)
+    return out
+
+
+_ZIP_SELFTEST = """
+def __eq__(self, other):
+    return type(self) == type(other) and all(a == b for a, b in zip(self.items, other.items))
+"""
+
+
+def rule_h10(repo, col, classes):
+    """an __eq__ that compares two sequences element by element through zip() also compares their lengths"""
+    if len(zip_without_length(ast.parse(_ZIP_SELFTEST))) != 1:
+        raise AnalysisError("zip-without-length rule does not fire on its positive example")
+    n = 0
+    for c in classes:
+        f = c.methods.get("__eq__")
+        if f is None:
+            continue
+        n += 1
+        bad = [z for z in zip_without_length(f.node) if any(norm(a).startswith("self.") for a in z.args)]
+        for z in bad:
+            col.fail("H10", f.module, z, "%s pairs %s up with zip() and never compares the lengths: zip stops at the shorter sequence, so an object whose sequence is a prefix of the other's "
+                     "compares equal to it - equality is no longer transitive and equal objects hash differently (0.2::a; 0.3::b :- d == 0.2::a; 0.3::b; 0.1::c :- d)"
+                     % (f.qualname, " and ".join(norm(a) for a in z.args)), construct="%s: zip() without a length comparison" % f.qualname, function=f.qualname)
+        if not bad:
+            col.ok("H10", f.module, f.node, "%s compares no sequences through a bare zip()" % f.qualname, construct="%s: element-wise comparison" % f.qualname, function=f.qualname)
+    col.floor("H10.eq_methods", n, 5)
+
+
 def run(repo, col):
     col.rule("H1", "__eq__ and __hash__ defined together")
     col.rule("H2", "cross-class equality requires a shared hash")
@@ -481,3 +525,5 @@ def run(repo, col):
     rule_h7(repo, col)
     col.rule("H9", "the hash reads no lazily filled memo field")
     rule_h9(repo, col)
+    col.rule("H10", "element-wise equality through zip() also compares the lengths")
+    rule_h10(repo, col, classes)
